@@ -920,6 +920,13 @@ func (e *Eval) compile(node ast.Node) error {
 		// emit `OpCall NN` where NN is the number of arguments
 		// to pop and invoke the function with.
 		//
+		// Only a named function can be called.  Anything else which
+		// is written in front of the arguments would never be compiled,
+		// so whatever is wrong with it would go unnoticed.
+		if _, ok := node.Function.(*ast.Identifier); !ok {
+			return fmt.Errorf("only a named function can be called, not %s", node.Function.String())
+		}
+
 		args := len(node.Arguments)
 		for _, a := range node.Arguments {
 
